@@ -402,3 +402,25 @@ func H_C03_int_literals() {
 	}
 	verifReach("end")
 }
+
+// duplicate keys of every kind combination (the last one wins): a scalar first and a container later, a
+// container first and a scalar later, two containers
+func H_C03_duplicate_keys_mixed_kinds() {
+	vals := []string{`1`, `"s"`, `null`, `{}`, `{"q":2}`, `[]`, `[3]`}
+	wants := []mval{{kind: TypeInt, i: 1}, {kind: TypeString, s: "s"}, {kind: TypeNil},
+		{kind: TypeObject}, {kind: TypeObject, keys: []string{"q"}, elem: []mval{{kind: TypeInt, i: 2}}},
+		{kind: TypeList}, {kind: TypeList, elem: []mval{{kind: TypeInt, i: 3}}}}
+	a := nondetIntRange(0, len(vals)-1)
+	b := nondetIntRange(0, len(vals)-1)
+	k := hAscii(1)
+	verifAssume(verifAnd(k[0] != '"', k[0] != '\\'))
+	text := `{"` + k + `":` + vals[a] + `,"z":0,"` + k + `":` + vals[b] + `}`
+	want := mval{kind: TypeObject}
+	if k == "z" {
+		want.keys, want.elem = []string{"z"}, []mval{wants[b]}
+	} else {
+		want.keys, want.elem = []string{k, "z"}, []mval{wants[b], {kind: TypeInt, i: 0}}
+	}
+	hCheckDoc(false, text, want)
+	verifReach("end")
+}
